@@ -85,7 +85,7 @@ def main():
         "notes": "Family: static analysis only. Every check rebuilds facts from /repo's working tree (cache keyed by content hash). "
                  "known_findings.json lists genuine defects recorded/fixed; see DESIGN.md section 12 (status as built). "
                  "Unguarded repairs in /repo (one fix: commit each): 8998145 (try_reverse validates before writing, C12), 6559404 (validate_nbf, C10), "
-                 "fde9866 (parse_socket_addr brackets, C15), eab62ba (combinator no-interface panic, C19), 331ef08 (gateway no SCMP error on SCMP error, C14), 79fdbad (issue cache/queue bound, C06), 5a4a076 (ParseError::report char boundary, C16), 301e6d4 (SCMP/UDP checksum covers the message, C14/C03), 040ba43 (payload length bound, C03), 004c63c (ProtocolNumber::Hbh = 200, C03); "
+                 "fde9866 (parse_socket_addr brackets, C15), eab62ba (combinator no-interface panic, C19), 331ef08 (gateway no SCMP error on SCMP error, C14), 79fdbad (issue cache/queue bound, C06), 5a4a076 (ParseError::report char boundary, C16), 301e6d4 (SCMP/UDP checksum covers the message, C14/C03), 040ba43 (payload length bound, C03), 004c63c (ProtocolNumber::Hbh = 200, C03), 8f07ce4 (unsafe ScmpUnknownMessageView::set_message_type, C02); "
                  "no hook/instrumentation commits.",
     }
     with open(os.path.join(VERIF, "MANIFEST.json"), "w") as f:
